@@ -265,7 +265,7 @@ func (a *aspectJ) aspect() font.Aspect {
 
 // op is one decoded step. Only the fields of its kind are meaningful.
 type op struct {
-	Op string `json:"op"` // AddFace AddFont SetQuery SetScript SetRuneCacheSize ResolveFace ResolveFaceForLang
+	Op string `json:"op"` // AddFace AddFont SetQuery MutateQuerySlice SetScript SetRuneCacheSize ResolveFace ResolveFaceForLang
 
 	// AddFace: face #0 of the Copy-th parse of corpus file File, added under Location{File: ID}
 	// with description {Family, Aspect}. AddFont: the bytes of corpus file File, fileID ID,
@@ -277,10 +277,18 @@ type op struct {
 	Aspect *aspectJ `json:"aspect,omitempty"`
 
 	Families []string `json:"families,omitempty"` // SetQuery (with Aspect); nil = Query without families
-	Script   string   `json:"script,omitempty"`   // SetScript: ISO 15924 tag, "" = 0
-	Size     int      `json:"size,omitempty"`     // SetRuneCacheSize
-	Rune     int32    `json:"rune,omitempty"`     // ResolveFace
-	Lang     uint16   `json:"lang,omitempty"`     // ResolveFaceForLang
+	// Shared: the caller re-uses an argument it owns across calls. SetQuery: the families are
+	// written IN PLACE into the caller's one long-lived slice (same backing array for the whole
+	// history) and that slice is passed, so the map may still hold it from an earlier SetQuery.
+	// AddFont: the caller passes the one reader it keeps for that file (left wherever the previous
+	// call left it) instead of a new reader.
+	// MutateQuerySlice: the caller overwrites the first len(Families) elements of its long-lived
+	// slice in place WITHOUT calling SetQuery.
+	Shared bool   `json:"shared,omitempty"`
+	Script string `json:"script,omitempty"` // SetScript: ISO 15924 tag, "" = 0
+	Size   int    `json:"size,omitempty"`   // SetRuneCacheSize
+	Rune   int32  `json:"rune,omitempty"`   // ResolveFace
+	Lang   uint16 `json:"lang,omitempty"`   // ResolveFaceForLang
 }
 
 type history struct {
@@ -334,12 +342,25 @@ type machine struct {
 	prevAspect   font.Aspect
 	prevScript   language.Script
 	pureDB       bool // generator mode: only made-up families enter the database
+
+	// caller-owned arguments kept across calls (argument aliasing)
+	sharedBuf  []string // the caller's long-lived families slice (one backing array)
+	lastShared bool     // the last SetQuery passed sharedBuf[:sharedLen], so the map may alias it
+	sharedLen  int
+	// dirty: the caller changed, in place, the slice it last gave to SetQuery and has not called
+	// SetQuery since. Neither SetQuery ("set the families and aspect required, influencing
+	// subsequent ResolveFace calls") nor Query.Families says whether the map follows or ignores
+	// such a change, so no lookup is made (none is judged) in that state; the next SetQuery call,
+	// with whatever slice, must make the map follow the content it is given.
+	dirty   bool
+	readers map[string]*bytes.Reader
 }
 
 func discard() *log.Logger { return log.New(io.Discard, "", 0) }
 
 func newMachine() *machine {
-	return &machine{fm: fontscan.NewFontMap(discard()), cacheSize: 4096, labels: map[string]int{}, nextCopy: map[string]int{}}
+	return &machine{fm: fontscan.NewFontMap(discard()), cacheSize: 4096, labels: map[string]int{}, nextCopy: map[string]int{},
+		sharedBuf: make([]string, 4), readers: map[string]*bytes.Reader{}}
 }
 
 func (m *machine) label(l string) { m.labels[l]++ }
@@ -354,7 +375,8 @@ func describe(o op) string {
 }
 
 // addTo performs an Add* step on a font map and returns the model entries it creates.
-func addTo(fm *fontscan.FontMap, o op) ([]entry, error) {
+// rd, when not nil, is the caller's long-lived reader for the file (AddFont only).
+func addTo(fm *fontscan.FontMap, o op, rd *bytes.Reader) ([]entry, error) {
 	f, err := getFile(o.File)
 	if err != nil {
 		return nil, err
@@ -372,7 +394,10 @@ func addTo(fm *fontscan.FontMap, o op) ([]entry, error) {
 		md.Aspect.SetDefaults() // model: unset fields of the description mean the regular values
 		return []entry{{Loc: loc, Family: font.NormalizeFamily(o.Family), Aspect: md.Aspect, Runes: c.Runes, Scripts: c.Scripts, Langs: c.Langs, Face: faces[0], Sample: c.Sample}}, nil
 	case "AddFont":
-		if err := fm.AddFont(bytes.NewReader(f.bytes), o.ID, o.Family); err != nil {
+		if rd == nil {
+			rd = bytes.NewReader(f.bytes)
+		}
+		if err := fm.AddFont(rd, o.ID, o.Family); err != nil {
 			return nil, fmt.Errorf("AddFont: %v", err)
 		}
 		var out []entry
@@ -397,7 +422,7 @@ func (m *machine) fresh() (*fontscan.FontMap, error) {
 	fm := fontscan.NewFontMap(discard())
 	fm.SetRuneCacheSize(0)
 	for _, o := range m.adds {
-		if _, err := addTo(fm, o); err != nil {
+		if _, err := addTo(fm, o, nil); err != nil {
 			return nil, err
 		}
 	}
@@ -435,7 +460,17 @@ func (m *machine) apply(t ev.TB, o op) {
 			es  []entry
 			err error
 		)
-		m.guard(t, func() { es, err = addTo(m.fm, o) })
+		var rd *bytes.Reader
+		if o.Op == "AddFont" && o.Shared {
+			if f, ferr := getFile(o.File); ferr == nil {
+				if rd = m.readers[o.File]; rd == nil {
+					rd = bytes.NewReader(f.bytes)
+					m.readers[o.File] = rd
+				}
+				m.label("addfont_reused_reader")
+			}
+		}
+		m.guard(t, func() { es, err = addTo(m.fm, o, rd) })
 		if err != nil {
 			m.failf(t, "%v", err)
 		}
@@ -445,8 +480,21 @@ func (m *machine) apply(t ev.TB, o op) {
 		m.label("op_" + o.Op)
 	case "SetQuery":
 		m.prevFamilies, m.prevAspect = m.families, m.aspect
-		fams := append([]string(nil), o.Families...)
+		var fams []string
+		if o.Shared {
+			if len(o.Families) > cap(m.sharedBuf) {
+				m.sharedBuf = make([]string, len(o.Families))
+			}
+			fams = m.sharedBuf[:len(o.Families)]
+			copy(fams, o.Families) // in place: the map may still hold this slice
+			if m.lastShared {
+				m.label("setquery_same_slice_again")
+			}
+		} else {
+			fams = append([]string(nil), o.Families...)
+		}
 		m.guard(t, func() { m.fm.SetQuery(fontscan.Query{Families: fams, Aspect: o.Aspect.aspect()}) })
+		m.lastShared, m.sharedLen, m.dirty = o.Shared && len(o.Families) > 0, len(o.Families), false
 		m.querySet = true
 		m.families = append([]string(nil), o.Families...)
 		if len(m.families) == 0 {
@@ -454,6 +502,18 @@ func (m *machine) apply(t ev.TB, o op) {
 		}
 		m.aspect = o.Aspect.aspect()
 		m.label("op_SetQuery")
+	case "MutateQuerySlice":
+		n := len(o.Families)
+		if n > cap(m.sharedBuf) {
+			n = cap(m.sharedBuf)
+		}
+		for i := 0; i < n; i++ {
+			if m.lastShared && i < m.sharedLen && m.sharedBuf[i] != o.Families[i] {
+				m.dirty = true
+			}
+		}
+		copy(m.sharedBuf[:n], o.Families)
+		m.label("op_MutateQuerySlice")
 	case "SetScript":
 		m.prevScript = m.script
 		m.script = parseScript(o.Script)
@@ -464,10 +524,18 @@ func (m *machine) apply(t ev.TB, o op) {
 		m.guard(t, func() { m.fm.SetRuneCacheSize(o.Size) })
 		m.cacheSize = o.Size
 		m.label("op_SetRuneCacheSize")
-	case "ResolveFace":
-		m.resolveFace(t, rune(o.Rune))
-	case "ResolveFaceForLang":
-		m.resolveLang(t, language.LangID(o.Lang))
+	case "ResolveFace", "ResolveFaceForLang":
+		if m.dirty {
+			// unspecified state (see machine.dirty): the generator never looks up here; a
+			// hand-written replay that does is not executed, so that nothing is judged
+			m.label("lookup_in_unspecified_state_not_made")
+			return
+		}
+		if o.Op == "ResolveFace" {
+			m.resolveFace(t, rune(o.Rune))
+		} else {
+			m.resolveLang(t, language.LangID(o.Lang))
+		}
 	default:
 		t.Fatalf("unknown op %q", o.Op)
 	}
@@ -782,7 +850,15 @@ func (m *machine) actions() map[string]func(*rapid.T) {
 		m.nextCopy[file]++
 		m.apply(t, o)
 	}
+	// clean: after an in-place change of the slice last given to SetQuery, the caller calls
+	// SetQuery again with that same slice (and the same aspect) before any lookup
+	clean := func(t *rapid.T) {
+		if m.dirty {
+			m.apply(t, op{Op: "SetQuery", Families: append([]string(nil), m.sharedBuf[:m.sharedLen]...), Aspect: toJ(m.aspect), Shared: true})
+		}
+	}
 	resolve := func(t *rapid.T) {
+		clean(t)
 		m.apply(t, op{Op: "ResolveFace", Rune: int32(m.genRune(t))})
 	}
 	setQuery := func(t *rapid.T) {
@@ -791,7 +867,14 @@ func (m *machine) actions() map[string]func(*rapid.T) {
 		for i := 0; i < n; i++ {
 			fams = append(fams, m.genFamily(t, true))
 		}
-		m.apply(t, op{Op: "SetQuery", Families: fams, Aspect: toJ(m.genQueryAspect(t))})
+		shared := rapid.IntRange(0, 9).Draw(t, "sharedSlice") < 4
+		m.apply(t, op{Op: "SetQuery", Families: fams, Aspect: toJ(m.genQueryAspect(t)), Shared: shared})
+	}
+	// mutate: the caller overwrites one element of its long-lived slice in place
+	mutate := func(t *rapid.T, family string) {
+		fams := append([]string(nil), m.sharedBuf[:m.sharedLen]...)
+		fams[rapid.IntRange(0, len(fams)-1).Draw(t, "mutatedIndex")] = family
+		m.apply(t, op{Op: "MutateQuerySlice", Families: fams})
 	}
 	nonEmpty := func(f func(*rapid.T)) func(*rapid.T) {
 		return func(t *rapid.T) {
@@ -810,7 +893,7 @@ func (m *machine) actions() map[string]func(*rapid.T) {
 			if m.pureDB || rapid.IntRange(0, 9).Draw(t, "overrideFamily") < 6 {
 				fam = m.genFamily(t, false)
 			}
-			m.apply(t, op{Op: "AddFont", File: file, ID: m.nextID(pick(t, "ext", fileExts)), Family: fam})
+			m.apply(t, op{Op: "AddFont", File: file, ID: m.nextID(pick(t, "ext", fileExts)), Family: fam, Shared: rapid.Bool().Draw(t, "sharedReader")})
 		},
 		"SetQuery":  setQuery,
 		"SetQuery2": setQuery,
@@ -825,8 +908,37 @@ func (m *machine) actions() map[string]func(*rapid.T) {
 			if !m.querySet {
 				t.Skip("no query yet")
 			}
-			m.apply(t, op{Op: "SetQuery", Families: append([]string(nil), m.families...), Aspect: toJ(m.genQueryAspect(t))})
+			m.apply(t, op{Op: "SetQuery", Families: append([]string(nil), m.families...), Aspect: toJ(m.genQueryAspect(t)), Shared: m.lastShared})
 			resolve(t)
+		}),
+		// the caller changes its families slice in place and does NOT call SetQuery (yet)
+		"MutateQuerySlice": func(t *rapid.T) {
+			if !m.lastShared {
+				t.Skip("the map does not hold the caller's slice")
+			}
+			mutate(t, m.genFamily(t, true))
+		},
+		// SetQuery(s); lookup; s changed in place; SetQuery(s) again with the same aspect; lookup
+		"AliasedRequery": nonEmpty(func(t *rapid.T) {
+			if !m.lastShared || m.dirty {
+				n := rapid.IntRange(1, 3).Draw(t, "nFamilies")
+				var fams []string
+				for i := 0; i < n; i++ {
+					fams = append(fams, m.genFamily(t, true))
+				}
+				m.apply(t, op{Op: "SetQuery", Families: fams, Aspect: toJ(m.genQueryAspect(t)), Shared: true})
+			}
+			resolve(t)
+			e := m.db[rapid.IntRange(0, len(m.db)-1).Draw(t, "targetFace")]
+			mutate(t, e.Family)
+			clean(t)
+			r := ' '
+			if len(e.Sample) > 0 && rapid.IntRange(0, 3).Draw(t, "sameRune") != 0 {
+				r = pick(t, "sampleRune", e.Sample)
+			} else if len(m.recent) > 0 {
+				r = m.recent[len(m.recent)-1]
+			}
+			m.apply(t, op{Op: "ResolveFace", Rune: int32(r)})
 		}),
 		// a new face, then a lookup that was probably cached
 		"AddFaceThenRepeat": nonEmpty(func(t *rapid.T) {
@@ -861,6 +973,7 @@ func (m *machine) actions() map[string]func(*rapid.T) {
 			if len(m.db) == 0 {
 				t.Skip("empty map") // (a skip must come before any draw, or rapid counts the step as rejected)
 			}
+			clean(t)
 			m.apply(t, op{Op: "ResolveFaceForLang", Lang: uint16(pick(t, "lang", langs))})
 		},
 	}
